@@ -31,8 +31,9 @@ impl log::Log for SinkLogger {
     fn flush(&self) {}
 }
 static LOGGER: SinkLogger = SinkLogger;
-/// checks whose subject can reach a log statement of the library
-const LOG_PASS: [&str; 14] = ["C02", "C03", "C04", "C05", "C06", "C07", "C08", "C09", "C11", "C15", "C16", "C17", "C18", "C19"];
+/// checks whose subject can reach a log statement of the library (or could, were one added: the
+/// cheap enumerations run the pass too)
+const LOG_PASS: [&str; 18] = ["C01", "C10", "C13", "C14", "C02", "C03", "C04", "C05", "C06", "C07", "C08", "C09", "C11", "C15", "C16", "C17", "C18", "C19"];
 /// checks whose ceremonies are run once more with a user who takes an hour to answer every prompt
 const SLOW_PASS: [&str; 8] = ["C02", "C03", "C04", "C07", "C08", "C09", "C11", "C17"];
 /// checks whose subject can be used by several OS threads at once
